@@ -394,7 +394,9 @@ class WSGITask(Task):
                         raise exc_info[1]
                     else:
                         # As per WSGI spec existing headers must be cleared
+                        # (with them the length they declared)
                         self.response_headers = []
+                        self.content_length = None
                 finally:
                     exc_info = None
 
